@@ -639,12 +639,14 @@ where
         let prio_indices = prioritized_indices(&self.bin_ops.ops, &self.nodes);
 
         let mut num_inds = prio_indices.clone();
-        let mut priorities = self
+        // priority, operator index, and commutativity of the operators that have not been
+        // applied, yet, i.e., entry `i` belongs to the operator between nodes `i` and `i + 1`
+        let mut remaining_ops = self
             .bin_ops
             .ops
             .iter()
-            .map(|o| o.op.prio)
-            .collect::<SmallVec<[i64; N_NODES_ON_STACK]>>();
+            .map(|o| (o.op.prio, o.idx, o.op.is_commutative))
+            .collect::<SmallVec<[(i64, usize, bool); N_NODES_ON_STACK]>>();
         let mut used_prio_indices = ExprIdxVec::new();
 
         let mut already_declined: SmallVec<[bool; N_NODES_ON_STACK]> =
@@ -655,13 +657,20 @@ where
             let node_1 = &self.nodes[num_idx];
             let node_2 = &self.nodes[num_idx + 1];
             if let (DeepNode::Num(num_1), DeepNode::Num(num_2)) = (node_1, node_2) {
-                if !(already_declined[num_idx] || already_declined[num_idx + 1]) {
+                // A number that is already an operand of the not applied operator to its left
+                // can only be used if that merely regroups a chain of one and the same
+                // commutative operator.
+                let left_operand_is_free = !already_declined[num_idx]
+                    || (num_idx > 0
+                        && remaining_ops[num_idx - 1] == remaining_ops[num_idx]
+                        && remaining_ops[num_idx].2);
+                if left_operand_is_free && !already_declined[num_idx + 1] {
                     let bin_op_result =
                         self.bin_ops.ops[bin_op_idx].apply(num_1.clone(), num_2.clone());
                     self.nodes[num_idx] = DeepNode::Num(bin_op_result);
                     self.nodes.remove(num_idx + 1);
                     already_declined.remove(num_idx + 1);
-                    priorities.remove(num_idx);
+                    remaining_ops.remove(num_idx);
                     // reduce indices after removed position
                     for num_idx_after in num_inds.iter_mut() {
                         if *num_idx_after > num_idx {
@@ -669,15 +678,9 @@ where
                         }
                     }
                     used_prio_indices.push(bin_op_idx);
-                } else if num_idx > 0 && num_idx < priorities.len() - 1 {
-                    if already_declined[num_idx + 1]
-                        && priorities[num_idx + 1] > priorities[num_idx]
-                    {
-                        already_declined[num_idx] = true;
-                    }
-                    if already_declined[num_idx] && priorities[num_idx] > priorities[num_idx + 1] {
-                        already_declined[num_idx + 1] = true;
-                    }
+                } else {
+                    already_declined[num_idx] = true;
+                    already_declined[num_idx + 1] = true;
                 }
             } else {
                 already_declined[num_idx] = true;
